@@ -214,3 +214,78 @@ func c17Static(run *checkRun) {
 	run.extra["action_bodies_compared"] = len(actions)
 	run.extra["action_body_mismatches"] = mism
 }
+
+// c16Keys: tricky key skeletons.
+func c16Keys() []string {
+	return []string{
+		"a", "ab", "a b", "a.b", "a'b", "a\"b", "a\\b", "a\\\\b", "\\n", "\\u0041", "\\", "'", "\"", "\\'", "\\\"",
+		"$", "@", "*", "..", "[0]", "a,b", " ", "a]", "['a']", "?(x)", "a/b", "a\tb", "\x01", "ab\x7f", "\x1f", "a\nb",
+		"é", "aé", "日本", "𝄞", "a𝄞b", "-", "_", "a-b_c", "0", "007", "true", "null", "()", "f()", "a()", "a:b", "1:2", "a=~b", "&&", "||", "!a", "<", "a=='b'",
+		"\\u00e9", "\\ud834\\udd1e", "\\b", "/", "\\/", "~", "`", "{", "}", "^", "#", "%", "a+b", ";",
+	}
+}
+
+func c16Jobs(tier string, seed int64) []*engine.Job {
+	rng := rand.New(rand.NewSource(seed + 16))
+	var jobs []*engine.Job
+	n := 0
+	add := func(key, holepos, near, nearpos, pos string) {
+		jobs = append(jobs, &engine.Job{ID: fmt.Sprintf("c16-%d", n), Harness: "zzH_C16",
+			Params: map[string]string{"key": key, "holepos": holepos, "near": near, "nearpos": nearpos, "pos": pos, "path": key}, MaxPaths: 400000})
+		n++
+	}
+	for _, k := range c16Keys() {
+		// near-miss siblings: with/without escape characters, one extra character
+		nears := []string{k + "x", "\\" + k, "x" + k}
+		if strings.Contains(k, "\\") {
+			nears = append(nears, strings.Replace(k, "\\", "", 1), strings.Replace(k, "\\", "\\\\", 1))
+		}
+		if strings.Contains(k, "'") {
+			nears = append(nears, strings.Replace(k, "'", "\\'", 1))
+		}
+		if len(k) > 1 {
+			nears = append(nears, k[:len(k)-1])
+		}
+		for pi, pos := range []string{"root", "nested", "filter"} {
+			// concrete key
+			add(k, "", nears[(pi)%len(nears)], "", pos)
+			if tier != "thorough" && pi > 0 && rng.Intn(2) == 0 {
+				continue
+			}
+			// one symbolic byte at each ASCII position (the sibling keeps the concrete key)
+			for i := 0; i < len(k); i++ {
+				if k[i] >= 0x80 {
+					continue
+				}
+				if tier != "thorough" && rng.Intn(3) != 0 && len(k) > 2 {
+					continue
+				}
+				add(k, fmt.Sprint(i), k, "", pos)
+				// the same symbolic byte in the key and in a sibling that differs elsewhere
+				add(k, fmt.Sprint(i), nears[0], fmt.Sprint(i), pos)
+			}
+			if tier == "thorough" && len(k) >= 2 && k[0] < 0x80 && k[1] < 0x80 {
+				add(k, "0,1", k, "", pos)
+			}
+		}
+	}
+	return jobs
+}
+
+func init() {
+	register(&CheckDef{
+		ID:        "C16",
+		Level:     "model_checking",
+		Technique: "bounded symbolic execution of escaper -> real PEG parser -> the three unescape routines -> map lookup on keys with symbolic ASCII bytes (byte-class forks decided on exact domains, key equalities by z3); each spelling must return exactly the member's value",
+		Jobs:      c16Jobs,
+		Bounds: func(tier string) map[string]interface{} {
+			return map[string]interface{}{"keys": "66 tricky key skeletons (quotes, backslashes, escape-like text, control characters, symbols, non-ASCII, non-BMP, empty excluded by construction of the sibling) with 0 or 1 (thorough: 2) symbolic ASCII bytes at each position in turn; one near-miss sibling key per job",
+				"positions": "at the root, below a name step, inside a filter operand (`..` is covered only with concrete keys through C01/C18: sorting keys with symbolic bytes is not modelled)",
+				"spellings": "['k'], [\"k\"] with JSON-style escaping; dot notation with every symbol character backslash-escaped, for non-empty keys without control characters"}
+		},
+		Stubs: []string{"encoding/json.Unmarshal of a quoted string with symbolic ASCII bytes: exact byte-class model, validated against the host library by the witnesses of every run",
+			"regexp `\\\\(.)` ReplaceAllStringFunc on symbolic bytes: exact model", "maps with symbolic-byte keys: lookups compare keys one by one (equalities decided by z3)"},
+		Assumptions:  append([]string{"symbolic bytes are ASCII (0..127); non-ASCII characters occur only concretely in the skeletons"}, commonAssumptions...),
+		ExpectLabels: []string{"single-quoted", "double-quoted", "dot-notation", "sibling-addressable"},
+	})
+}
